@@ -186,8 +186,10 @@ def dec_positions(cls):
     for name, fd in cls["fields"]:
         if fd.get("k") == "number" and fd.get("dec"):
             out.append([name, "bare"])
-        elif fd.get("k") == "seqOf" and fd.get("seq", "list") == "list" and fd["item"].get("dec"):
+        elif fd.get("k") == "seqOf" and fd["item"].get("dec"):
             out.append([name, "items"])
+        elif fd.get("k") == "anyOf" and len(fd["fields"]) == 2 and fd["fields"][0].get("dec") and fd["fields"][1].get("k") == "noneF":
+            out.append([name, "optional"])
         elif fd.get("k") == "mapOf" and fd["val"].get("dec") and '"dec"' not in json.dumps(fd["key"]):
             out.append([name, "values"])
         elif '"dec"' in json.dumps(fd):
@@ -253,11 +255,15 @@ def decimal_cases(rng, tier, n_classes):
         nd = dg.num_opts("number")
         nd.pop("sign", None)
         nd["dec"] = True
-        pos = rng.choice(["bare", "bare", "items", "values"])
+        pos = rng.choice(["bare", "bare", "items", "values", "optional", "qitems"])
         if pos == "bare":
             fd = nd
-        elif pos == "items":
+        elif pos == "optional":
+            fd = {"k": "anyOf", "fields": [nd, {"k": "noneF"}]}
+        elif pos in ("items", "qitems"):
             fd = dg.size_opts({"k": "seqOf", "item": nd})
+            if pos == "qitems":
+                fd["seq"] = "deque"
         else:
             fd = dg.size_opts({"k": "mapOf", "key": {"k": "string"}, "val": nd}, uniq=False)
         fields = [["d", fd]] + [[nm, dg.decl(1)] for nm in rng.sample(["a", "b"], rng.choice([0, 0, 1]))]
@@ -288,10 +294,12 @@ def decimal_cases(rng, tier, n_classes):
             return rng.choice([s_, " " + s_, s_ + " ", "+" + s_ if fr >= 0 else s_])
 
         def wrap(xs):
-            if pos == "bare":
-                return xs[0]
+            if pos in ("bare", "optional"):
+                return xs[0] if xs else None
             if pos == "items":
                 return {"l": list(xs)}
+            if pos == "qitems":
+                return {"q": list(xs)}
             return {"m": [[f"k{i}", x] for i, x in enumerate(xs)]}
 
         good = vg.valid(plain)
@@ -306,14 +314,23 @@ def decimal_cases(rng, tier, n_classes):
         for tag, x in leafs:
             if x is gen.NOVALUE:
                 continue
-            xs = [x] if pos == "bare" or rng.random() < 0.4 else [spell(good), x]
+            xs = [x] if pos in ("bare", "optional") or rng.random() < 0.4 else [spell(good), x]
             kw = others + [["d", wrap(xs)]]
             cases.append({"suite": "construct", "cls": cls, "kw": kw, "stream": "decimal-" + tag, "re": gen.re_table(cls, kw)})
         cases.append({"suite": "construct", "cls": cls, "kw": others, "stream": "decimal-missing", "re": gen.re_table(cls, others)})
         cases.append({"suite": "construct", "cls": cls, "kw": others + [["d", None]], "stream": "decimal-none", "re": gen.re_table(cls, others)})
-        if pos != "bare":
+        if pos not in ("bare", "optional"):
             cases.append({"suite": "construct", "cls": cls, "kw": others + [["d", wrap([])]], "stream": "decimal-empty", "re": gen.re_table(cls, others)})
             cases.append({"suite": "construct", "cls": cls, "kw": others + [["d", rng.choice(vg.confusion())]], "stream": "decimal-confusion", "re": gen.re_table(cls, others)})
+    # directed: NaN / signaling NaN / infinities against uniqueItems, bounds and multiplesOf (judged on the real code alone)
+    for di, (fd, vals) in enumerate([
+            ({"k": "seqOf", "item": {"k": "number", "dec": True}, "uniq": True}, [{"l": [1, "sNaN"]}, {"l": ["NaN", "NaN"]}, {"l": ["Infinity", "Infinity"]}]),
+            ({"k": "number", "dec": True, "min": [0, 1]}, ["sNaN", "NaN", "-Infinity", "Infinity"]),
+            ({"k": "number", "dec": True, "mult": 3}, ["sNaN", "NaN", "Infinity", "1e30", "3e30"])]):
+        cls = {"k": "struct", "name": f"DecX{di}", "required": ["d"], "addl": False, "fields": [["d", fd]]}
+        fix_accepts(cls)
+        for v in vals:
+            cases.append({"suite": "construct", "cls": cls, "kw": [["d", v]], "stream": "decimal-nonfinite", "re": []})
     return cases
 
 
@@ -468,17 +485,17 @@ def hook_cases(rng, tier, n_classes):
     return cases
 
 
-def default_cases(rng, tier, n_classes):
+def default_cases(rng, tier, n_classes, ext=False):
     """classes whose non-required fields carry DEFAULTS - valid ones, boundary neighbours of the field's
     constraints and ==-equal values of another type (a falsy default is not checked when the class is defined:
     it must be checked when it is applied) - constructed with the field left out / supplied / None, and sent
     through entry-point chains.  One possibly-invalid thing per case, so the error class is determined."""
     cases = []
     for ci in range(n_classes):
-        dg = gen.DeclGen(rng, max_depth=rng.choice([1, 1, 2]))
+        dg = gen.DeclGen(rng, max_depth=rng.choice([1, 1, 2]), **({"ext": True, "allow": ["xstring", "integer", "string", "seqOf", "mapOf"]} if ext else {}))
         vg = gen.ValGen(rng)
         cls = dg.class_decl(0, n_fields=rng.choice([1, 2, 2, 3]))
-        cls["name"] = f"D{ci}"
+        cls["name"] = f"{'XD' if ext else 'D'}{ci}"
         fix_accepts(cls)
         # the first field becomes the defaulted one
         name, fd = cls["fields"][0]
@@ -562,6 +579,34 @@ def deser_chain_cases(rng, tier, n_classes):
                 else:
                     chain += gen_chain(rng, vg, cls, 1)
             case = {"suite": "construct", "cls": cls, "kw": kw, "stream": "deser-chain", "chain": chain, "re": None}
+            case["re"] = gen.re_table(cls, kw, chain)
+            cases.append(case)
+    return cases
+
+
+def nested_hook_cases(rng, tier, n_classes):
+    """hooks of NESTED classes, tied to the model: an Outer class holds instances of a hooked Inner class bare, in an
+    Array, a Map, a Tuple and behind Optional; arguments and chain overrides carry Inner instances (products of the real,
+    hooked constructor); the Lean `allInst` predicate (Spec/NestedHooks.lean) is evaluated on the instance every chain
+    of entry points returns (chainH_nested_hooks)"""
+    cases = []
+    for ci in range(n_classes):
+        vg = gen.ValGen(rng)
+        inner = {"k": "struct", "name": f"NIn{ci}", "required": ["lo"], "addl": rng.random() < 0.3,
+                 "fields": [["lo", {"k": "integer"}], ["hi", {"k": "integer", "min": [0, 1]}], ["tag", {"k": "string"}]]}
+        shapes = [["f", inner], ["items", {"k": "seqOf", "item": inner}], ["m", {"k": "mapOf", "key": {"k": "string"}, "val": inner}],
+                  ["t", {"k": "tuplePos", "items": [inner, {"k": "integer"}]}], ["opt", {"k": "anyOf", "fields": [inner, {"k": "noneF"}]}],
+                  ["deep", {"k": "seqOf", "item": {"k": "mapOf", "key": {"k": "string"}, "val": inner}}]]
+        fields = [json.loads(json.dumps(x)) for x in rng.sample(shapes, rng.randint(1, 3))] + [["n", {"k": "integer"}]]
+        cls = {"k": "struct", "name": f"NOut{ci}", "required": [fields[0][0]], "addl": False, "fields": fields}
+        fix_accepts(cls)
+        hooks = [[inner["name"], [["lo", rng.choice([1, 2, 3, 5])]]]]
+        for _ in range(4):
+            kw = vg.valid_kw(cls)
+            if kw is gen.NOVALUE:
+                continue
+            chain = gen_chain(rng, vg, cls, rng.randint(1, 3 if tier == "quick" else 5))
+            case = {"suite": "construct", "cls": cls, "kw": kw, "stream": "nested-hook", "hooksByClass": hooks, "chain": chain, "re": None}
             case["re"] = gen.re_table(cls, kw, chain)
             cases.append(case)
     return cases
@@ -709,6 +754,9 @@ def run_impl(case):
     if case.get("hook"):
         from . import mutate as M
         M.install_hook(cls, case["hook"], ctx)
+    for cname, hs in case.get("hooksByClass") or []:
+        from . import mutate as M
+        M.install_hook(ctx.classes[cname], hs, ctx)
     try:
         kw = {k: dump.load_value(v, ctx) for k, v in case["kw"]}
     except Exception as e:
@@ -774,6 +822,8 @@ def line(case, impl):
     l = {"suite": "construct", "cls": impl.get("cls_actual", case["cls"]), "kw": impl.get("kw_actual", case["kw"]), "re": case.get("re", [])}
     if case.get("hook"):
         l["hook"] = case["hook"]
+    if case.get("hooksByClass"):
+        l["hooksByClass"] = case["hooksByClass"]
     if impl.get("decs"):
         l["decs"] = impl["decs"]
         l["decParse"] = impl["dec_parse"]
@@ -875,6 +925,24 @@ def correspondence(case, impl, model):
     return None
 
 
+def loose_canon(j):
+    """canonical form up to Python `==` on numbers (True == 1 == 1.0 == Decimal(1))"""
+    from fractions import Fraction
+    if isinstance(j, bool):
+        return ["num", int(j), 1]
+    if isinstance(j, int):
+        return ["num", j, 1]
+    if isinstance(j, list):
+        return [loose_canon(x) for x in j]
+    if isinstance(j, dict):
+        if "f" in j or "d" in j:
+            a = j.get("f") or j.get("d")
+            fr = Fraction(a[0], a[1])
+            return ["num", fr.numerator, fr.denominator]
+        return {k: loose_canon(v) for k, v in j.items()}
+    return j
+
+
 def chain_correspondence(case, impl, model):
     """model `runChain` vs the real entry points"""
     if "chain" not in impl or "chainRes" not in model:
@@ -892,6 +960,10 @@ def chain_correspondence(case, impl, model):
             if serde._same(mc["ok"], ic["ok"]):
                 return None
         if dump.canon(mc["ok"]) != dump.canon(ic["ok"]):
+            if '"anyOf"' in json.dumps(case["cls"]) and loose_canon(dump.canon(mc["ok"])) == loose_canon(dump.canon(ic["ok"])):
+                # a re-validating copy of a value held through AnyOf may match an EARLIER option that converts it: the
+                # copy is `==` but not identical (Props/C01.lean anyOf_restores_differently); copies promise equality
+                return None
             return (f"chain {ic.get('applied')}: different instances: model=" + json.dumps(dump.canon(mc["ok"]))[:400]
                     + " impl=" + json.dumps(dump.canon(ic["ok"]))[:400])
         return None
